@@ -827,3 +827,48 @@ func (f *GoFile) Shape() string {
 	}
 	return sb.String()
 }
+
+// ShareGoNames makes b declare some names that a declares too (a second directory of the same scan that happens to
+// use the same names: two `package main` commands both with `type Options struct` and `func Run()`): one struct,
+// and/or one interface, and/or one exported free function of b take the name of a declaration of the same kind in
+// a. Members (fields, methods, interface methods, bodies) stay b's own, so the two declarations differ.
+// samePkg: b also takes a's package clause. It returns the shared names; a and b are rendered again.
+func ShareGoNames(r *run.Rand, a, b *GoFile, samePkg bool) []string {
+	var shared []string
+	if as, bs := a.Structs(), b.Structs(); len(as) > 0 && len(bs) > 0 && r.Chance(3, 4) {
+		sa, sb := as[r.Intn(len(as))], bs[r.Intn(len(bs))]
+		sb.Name = sa.Name
+		for _, me := range sb.Methods {
+			me.Recv.Type = sa.Name
+		}
+		shared = append(shared, "struct "+sa.Name)
+	}
+	if ai, bi := a.Ifaces(), b.Ifaces(); len(ai) > 0 && len(bi) > 0 && r.Chance(1, 2) {
+		ia, ib := ai[r.Intn(len(ai))], bi[r.Intn(len(bi))]
+		ib.Name = ia.Name
+		shared = append(shared, "interface "+ia.Name)
+	}
+	var exported []*GoFunc
+	for _, fn := range a.Funcs() {
+		if fn.Name[0] >= 'A' && fn.Name[0] <= 'Z' {
+			exported = append(exported, fn)
+		}
+	}
+	if bf := b.Funcs(); len(exported) > 0 && len(bf) > 0 && (r.Chance(1, 2) || len(shared) == 0) {
+		fa, fb := exported[r.Intn(len(exported))], bf[r.Intn(len(bf))]
+		fb.Name = fa.Name
+		shared = append(shared, "func "+fa.Name)
+	}
+	if len(shared) == 0 {
+		return nil
+	}
+	if samePkg {
+		b.Pkg = a.Pkg
+		if r.Chance(1, 3) {
+			a.Pkg, b.Pkg = "main", "main"
+		}
+	}
+	a.render(r)
+	b.render(r)
+	return shared
+}
